@@ -60,7 +60,8 @@ type kvElection struct {
 	onPromote func(ctx context.Context, token string)
 	onDemote  func()
 
-	// termCancel cancels the context handed to OnPromote for the current term (guarded by mu)
+	// termCancel cancels the context of the current term: its heartbeat and validation loops and the
+	// context handed to OnPromote (guarded by mu)
 	termCancel context.CancelFunc
 
 	// Connection monitoring
@@ -409,16 +410,24 @@ func (e *kvElection) becomeLeader(token string, rev uint64) {
 		)...,
 	)
 
+	// The term's own context, cancelled when the term ends (becomeFollower) or the election stops:
+	// the loops of this term end with it and cannot run on into a later term of the same instance
+	if e.termCancel != nil {
+		e.termCancel()
+	}
+	termCtx, termCancel := context.WithCancel(e.ctx)
+	e.termCancel = termCancel
+
 	e.wg.Add(1)
 	go func() {
 		defer e.wg.Done()
-		e.heartbeatLoop(e.ctx)
+		e.heartbeatLoop(termCtx)
 	}()
 
 	e.wg.Add(1)
 	go func() {
 		defer e.wg.Done()
-		e.validationLoop(e.ctx)
+		e.validationLoop(termCtx)
 	}()
 
 	if e.onPromote != nil {
@@ -427,8 +436,7 @@ func (e *kvElection) becomeLeader(token string, rev uint64) {
 				zap.String("token", token),
 			)...,
 		)
-		promoteCtx, cancel := context.WithCancel(e.ctx)
-		e.termCancel = cancel
+		promoteCtx, cancel := context.WithCancel(termCtx)
 		onPromote := e.onPromote // read under the mutex; the goroutine must not touch the field
 		e.wg.Add(1)
 		go func() {
